@@ -172,11 +172,15 @@ def wrapper_table_check(ctx, rule, only=None):
 
 
 def r1_wiring(ctx):
+    # strengthening: every wrapper is decided on the enumerated transcripts by RK (and C01.R3 for the feature wrappers); the
+    # resolved wiring extends the verdict to all positions / intervals
+    ctx.r.soften("C06.R1")
     wrapper_table_check(ctx, "C06.R1")
 
 
 def r2_composition(ctx):
     r = ctx.r
+    r.soften("C06.R2")  # strengthening: path consistency cds<->transcript is decided by interpretation in RK
     for name, first, second in (("cds_pos_to_transcript", "cds_pos_to_", "_pos_to_transcript"),
                                 ("transcript_pos_to_cds", "transcript_pos_to_", "_pos_to_cds")):
         fn = ctx.repo.fn(f"{TX}.{name}")
@@ -237,8 +241,64 @@ def optional_deref_guarded(fn, attr, guard_names):
     return bad
 
 
+def r3i_noncoding_interpreted(ctx):
+    """deciding rule: every TranscriptInterval method that touches the optional CDS, interpreted on a NON-coding transcript
+    (on a sequence-carrying chromosome), either answers or raises a documented exception - never an AttributeError /
+    TypeError from dereferencing None.  Arguments are synthesised from the parameter names."""
+    r, repo = ctx.r, ctx.repo
+    from ..genekernel import chrom_parent
+    it = gene_interp(repo, max_steps=10 ** 9)
+    S = strands(it)
+    cls = repo.cls("TranscriptInterval")
+    genome = "ATGGCATTGTAACCGATGAAATAGCTTGACCATGGTTAAGCG"
+    n = 0
+    internal = ("AttributeError", "TypeError", "IndexError", "KeyError", "RecursionError", "UnboundLocalError", "NameError")
+    for name, fn in sorted(cls.methods.items()):
+        if name == "__init__" or name.startswith("_"):
+            continue
+        uses = [x for x in walk_shallow(fn.node) if isinstance(x, ast.Attribute) and dotted(x.value) == "self.cds"]
+        if not uses:
+            continue
+        params = fn.pos_params[1:]
+        a = fn.node.args
+        ndef = len(a.defaults)
+        required = params[:len(params) - ndef] if ndef else params
+        args = []
+        ok_args = True
+        for p_ in required:
+            if "strand" in p_:
+                args.append(S["PLUS"])
+            elif p_ in ("pos",):
+                args.append(5)
+            elif p_.endswith("start"):
+                args.append(5)
+            elif p_.endswith("end"):
+                args.append(8)
+            else:
+                ok_args = False
+        if not ok_args:
+            r.note(f"C06.R3i: no synthetic arguments for {fn.qual}({', '.join(required)}); not interpreted")
+            continue
+        n += 1
+        for sn in ("PLUS", "MINUS"):
+            tx = mk_transcript(it, [(4, 12), (16, 24)], S[sn], parent_or_seq_chunk_parent=chrom_parent(it, genome, alphabet="NT_EXTENDED"))
+            try:
+                k, v = run(it, fn, list(args), {}, tx)
+                if k == "ok" and hasattr(v, "items") and type(v).__name__ == "_Gen":
+                    pass
+            except Uninterpretable as ex:
+                raise AnalysisError(f"C06.R3i: {fn.qual}: {ex}")
+            bad = k == "raise" and v in internal
+            r.check(not bad, "C06.R3i", fn.qual, f"non-coding transcript ({sn})",
+                    f"{name}{tuple(args) if args else '()'} on a non-coding transcript raises {v}: the optional CDS is dereferenced "
+                    f"without a guard (documented: NoncodingTranscriptError or a plain answer)", fn)
+    r.floor("C06.R3i", "TranscriptInterval methods using the optional CDS (interpreted)", n, 18)
+
+
 def r3_noncoding_guard(ctx):
     r = ctx.r
+    # strengthening (guard dominance on every path) on top of R3i, which decides by interpretation
+    r.soften("C06.R3")
     cls = ctx.repo.cls("TranscriptInterval")
     n = 0
     for name, fn in sorted(cls.methods.items()):
@@ -371,6 +431,167 @@ def _tx_case(repo, it, S, F, exons, strand_name, cs, ce, start_frame=0):
 
 _W = {}
 
+# ---------------------------------------------------------------------------------------------------------
+# RW: every coordinate wrapper, by name, on parent-less and chunk-built objects
+# ---------------------------------------------------------------------------------------------------------
+RW_GENOME = "ATGGCATTGTAACCGATGAAATAGCTTGACCATGGTTAAGCGTACGTTGA"
+RW_LAYOUTS = [([(6, 12), (15, 22)], (8, 19)), ([(5, 14)], (5, 14)), ([(4, 9), (9, 13), (20, 27)], (6, 24))]
+RW_CHUNK = (3, 40)
+
+
+def _compose(a, b):
+    sign = {"PLUS": 1, "MINUS": -1, "UNSTRANDED": 0}
+    return {1: "PLUS", -1: "MINUS", 0: "UNSTRANDED"}[sign[a] * sign[b]]
+
+
+def _wrapper_case(repo, it, S, spec):
+    """spec: (layout index, strand, parent kind).  Every `<src>_(pos|interval)_to_<dst>` method found on the transcript, its
+    CDS and a feature with the same blocks is called over its whole small domain; the answer is read off the base lists
+    (exon bases / CDS bases 5'->3'; chromosome coordinates for `sequence`, chunk coordinates for `chunk_relative`)."""
+    li, sn, pk, only = spec
+    from ..genekernel import chrom_parent, chunk_parent, mk_feature
+    exons, (cs, ce) = RW_LAYOUTS[li]
+    cds_blocks = [(max(s_, cs), min(e, ce)) for s_, e in exons if max(s_, cs) < min(e, ce)]
+    F = it.enum("CDSFrame")
+    parent = None
+    off = 0
+    if pk == "chunk":
+        parent = chunk_parent(it, RW_GENOME, RW_CHUNK[0], RW_CHUNK[1], alphabet="NT_EXTENDED")
+        off = RW_CHUNK[0]
+    elif pk == "chrom":
+        parent = chrom_parent(it, RW_GENOME, alphabet="NT_EXTENDED")
+    tx = mk_transcript(it, exons, S[sn], cds_blocks, [F["ZERO"]] * len(cds_blocks), parent_or_seq_chunk_parent=parent)
+    ft = mk_feature(it, exons, S[sn], parent_or_seq_chunk_parent=parent)
+    T = enum_positions(list(exons), sn)
+    C = enum_positions(cds_blocks, sn)
+    out = []
+    n = 0
+    objs = [("TranscriptInterval", tx, {"transcript": T, "feature": T, "cds": C}),
+            ("FeatureInterval", ft, {"feature": T}),
+            ("CDSInterval", tx.fields["cds"], {"cds": C, "amino_acid": C})]
+    lo, hi = exons[0][0] - 1, exons[-1][1] + 1
+    cuts = sorted({lo, hi} | {b for blk in exons for b in blk} | {cs, ce} | {exons[0][0] + 1, exons[-1][1] - 1})
+    internal = ("AttributeError", "IndexError", "KeyError", "TypeError", "RecursionError")
+    for cname, obj, rels in objs:
+        if cname != only:
+            continue
+        cls = repo.cls(cname)
+        seen = set()
+        for k in repo.mro(cls):
+            for mname, fn in sorted(k.methods.items()):
+                m = NAME_RE.match(mname)
+                if not m or mname in seen:
+                    continue
+                seen.add(mname)
+                fn = repo.lookup_method(cls, mname)
+                src_sys, kind, dst_sys = m.groups()
+                gen = src_sys if src_sys in ("sequence", "chunk_relative") else dst_sys if dst_sys in ("sequence", "chunk_relative") else None
+                desc = f"{cname} exons={exons} cds={cds_blocks} {sn} parent={pk}"
+                if gen is None:
+                    continue  # cds<->transcript compositions: RK
+                rel = dst_sys if src_sys == gen else src_sys
+                if rel not in rels:
+                    continue
+                R = rels[rel]
+                shift = off if gen == "chunk_relative" else 0
+                to_rel = src_sys == gen
+
+                def bad(key, msg):
+                    out.append((f"{mname}: {key}", f"{desc}: {msg}", fn.qual))
+
+                if kind == "pos" and to_rel:
+                    for p in range(lo, hi + 1):
+                        n += 1
+                        k_, v = run(it, fn, [p - shift], {}, obj)
+                        if p in R:
+                            want = R.index(p) // 3 if dst_sys == "amino_acid" else R.index(p)
+                            if k_ != "ok" or v != want:
+                                bad("value", f"{mname}({p - shift}) -> {k_}:{v}; base enumeration gives {want}")
+                                break
+                        elif k_ != "raise" or v in internal:
+                            bad("rejection", f"{mname}({p - shift}) -> {k_}:{v}; the position is outside the {rel} bases and must be rejected")
+                            break
+                elif kind == "pos":
+                    for i in range(-1, len(R) + 1):
+                        n += 1
+                        k_, v = run(it, fn, [i], {}, obj)
+                        if 0 <= i < len(R):
+                            if k_ != "ok" or v != R[i] - shift:
+                                bad("value", f"{mname}({i}) -> {k_}:{v}; the {i}-th {rel} base is at {R[i] - shift}")
+                                break
+                        elif k_ != "raise" or v in internal:
+                            bad("rejection", f"{mname}({i}) -> {k_}:{v}; outside [0,{len(R)}) must be rejected")
+                            break
+                elif to_rel:
+                    for a in cuts:
+                        for b in cuts:
+                            if a >= b:
+                                continue
+                            for qs in ("PLUS", "MINUS"):
+                                inside = [p for p in range(a, b) if p in R]
+                                if not inside:
+                                    continue
+                                n += 1
+                                k_, v = run(it, fn, [a - shift, b - shift, S[qs]], {}, obj)
+                                want = sorted(R.index(p) for p in inside)
+                                if k_ != "ok":
+                                    bad("raises", f"{mname}({a - shift},{b - shift},{qs}) raises {v}; the shared bases have {rel} positions {want}")
+                                    break
+                                got = sorted(x for s_, e in blocks_of(v) for x in range(s_, e))
+                                gs = strand_of(v).name if strand_of(v) is not None else None
+                                if got != want or gs != _compose(qs, sn):
+                                    bad("value", f"{mname}({a - shift},{b - shift},{qs}) -> {blocks_of(v)}:{gs}; expected {rel} positions {want} on strand {_compose(qs, sn)}")
+                                    break
+                else:
+                    L = len(R)
+                    for a in range(0, L):
+                        for b in sorted({a + 1, min(L, a + 4), L}):
+                            if b <= a:
+                                continue
+                            for rs in ("PLUS", "MINUS"):
+                                n += 1
+                                k_, v = run(it, fn, [a, b, S[rs]], {}, obj)
+                                want = sorted(p - shift for p in R[a:b])
+                                if k_ != "ok":
+                                    bad("raises", f"{mname}({a},{b},{rs}) raises {v}; the {rel} bases [{a},{b}) lie at {want}")
+                                    break
+                                got = sorted(x for s_, e in blocks_of(v) for x in range(s_, e))
+                                gs = strand_of(v).name if strand_of(v) is not None else None
+                                if got != want or gs != _compose(sn, rs):
+                                    bad("value", f"{mname}({a},{b},{rs}) -> {blocks_of(v)}:{gs}; expected positions {want} on strand {_compose(sn, rs)}")
+                                    break
+    return n, out
+
+
+def rw_wrappers(ctx):
+    repo = ctx.repo
+    specs = [(li, sn, pk, cn) for li in range(len(RW_LAYOUTS) if ctx.thorough else 2) for sn in ("PLUS", "MINUS")
+             for pk in ("none", "chunk", "chrom") if ctx.thorough or pk != "chrom"
+             for cn in ("TranscriptInterval", "FeatureInterval", "CDSInterval")]
+
+    def work(spec):
+        if _W.get("repo") is not repo:
+            _W["it"] = gene_interp(repo, max_steps=10 ** 12)
+            _W["repo"] = repo
+        it = _W["it"]
+        try:
+            return _wrapper_case(repo, it, strands(it), spec)
+        except Uninterpretable as ex:
+            return 0, [("uninterpretable", str(ex), f"{TX}.__init__")]
+
+    results = pmap(work, specs, min_items=2)
+    from .c05 import _report
+    names = []
+    for cname in ("AbstractFeatureInterval", "TranscriptInterval", "CDSInterval"):
+        cls = repo.cls(cname)
+        for mname, fn in sorted(cls.methods.items()):
+            m = NAME_RE.match(mname)
+            if m and not {m.group(1), m.group(3)} <= {"feature", "transcript", "cds"}:
+                names.append((fn.qual, "whole small domain on parent-less and chunk-built objects, both strands"))
+    ctx.r.floor("C06.RW", "coordinate wrappers found by name", len(names), 33)
+    _report(ctx, "C06.RW", results, names)
+
+
 
 def rk_interpreted(ctx):
     r = ctx.r
@@ -420,6 +641,8 @@ def rk_interpreted(ctx):
 RULES = [
     ("C06.R1", r1_wiring),
     ("C06.R2", r2_composition),
+    ("C06.R3i", r3i_noncoding_interpreted),
     ("C06.R3", r3_noncoding_guard),
     ("C06.RK", rk_interpreted),
+    ("C06.RW", rw_wrappers),
 ]
